@@ -355,6 +355,13 @@ func (u *Universe) verifyFunction(fn *ssa.Function, c *Contract) (fc *FuncCtx) {
 		aenv := &Env{fc: fc, heap: st.heap, oldHeap: st.heap, alloc: st.allocBase, oldAlloc: st.allocBase, vars: map[string]Val{}}
 		fc.globalAxioms = append(fc.globalAxioms, aenv.evalBool(a.E))
 	}
+	// facts established by init functions (assumed everywhere else; see checkInitInvs)
+	if !isInitFunc(fn) {
+		for _, ii := range u.initInvs {
+			aenv := &Env{fc: fc, heap: st.heap, oldHeap: st.heap, alloc: st.allocBase, oldAlloc: st.allocBase, vars: map[string]Val{}}
+			fc.globalAxioms = append(fc.globalAxioms, aenv.evalBool(ii.Clause.E))
+		}
+	}
 	st.assume(Gt(st.allocBase, IntLit(0)))
 	fc.entryHeap = st.heap
 	fc.entryAlloc = st.allocBase
